@@ -190,12 +190,16 @@ class PadAttrs(Protocol):
     pads: list[int] | None
 
 
-def read_pads(attr_reader: AttributeReader, attrs: PadAttrs) -> None:
+def read_pads(
+    attr_reader: AttributeReader, attrs: PadAttrs, n_dims: int | None
+) -> None:
     """
     Update the padding attributes for an operator.
 
     Reads padding attributes from an ONNX operator and updates the attributes
     for an RTen operator.
+
+    :param n_dims: Number of spatial dims, from `spatial_dims`
     """
 
     auto_pad_attr = attr_reader.get_attr("auto_pad", "string", "NOTSET")
@@ -207,10 +211,10 @@ def read_pads(attr_reader: AttributeReader, attrs: PadAttrs) -> None:
             pads = []
         case "NOTSET":
             auto_pad = sg.AutoPad.NotSet
-            pads = attr_reader.get_attr(
-                "pads", "ints", [0, 0] * spatial_dims(attr_reader)
-            )
-            if len(pads) not in [2, 4]:
+            pads = attr_reader.get_attr("pads", "ints", None)
+            if pads is None:
+                pads = per_axis_default(0, n_dims) * 2
+            elif len(pads) not in [2, 4]:
                 raise ConversionError('"padding" attribute must have 2 or 4 values')
         case "VALID":
             # "VALID" means no padding. Map this to fixed padding of zero,
@@ -227,18 +231,41 @@ def read_pads(attr_reader: AttributeReader, attrs: PadAttrs) -> None:
         attrs.pads = pads
 
 
-def spatial_dims(attr_reader: AttributeReader) -> int:
+def spatial_dims(
+    attr_reader: AttributeReader,
+    constant_nodes: dict[str, ConstantNode] | None = None,
+) -> int | None:
     """
     Return the number of spatial dims of a convolution or pooling operator.
 
     This determines the length of the defaults for per-axis attributes
     (strides, dilations, pads). It is taken from the `kernel_shape` attribute
-    if present. Otherwise 2 spatial dims are assumed.
+    if present, or else from the rank of the weights (the second input) if they
+    are a constant. Otherwise it is only known at runtime and None is returned.
     """
     kernel_shape = attr_reader.get_attr("kernel_shape", "ints", None)
-    if kernel_shape is None:
-        return 2
-    return len(kernel_shape)
+    if kernel_shape is not None:
+        return len(kernel_shape)
+
+    op_inputs = attr_reader.onnx_op.input
+    if constant_nodes is not None and len(op_inputs) > 1:
+        weights = constant_nodes.get(op_inputs[1])
+        if weights is not None and len(weights.shape) > 2:
+            return len(weights.shape) - 2
+
+    return None
+
+
+def per_axis_default(value: int, n_dims: int | None) -> list[int]:
+    """
+    Return the default for a per-axis attribute of a convolution operator.
+
+    If the number of spatial dims is not known, this is an empty list, for
+    which RTen uses `value` along each spatial axis of the weights at runtime.
+    """
+    if n_dims is None:
+        return []
+    return [value] * n_dims
 
 
 def read_rnn_attrs(
@@ -264,33 +291,37 @@ def read_rnn_attrs(
     attr_reader.check_attr("layout", "int", 0)
 
 
-def read_strides(
-    attr_reader: AttributeReader,
-):
+def read_strides(attr_reader: AttributeReader, n_dims: int | None):
     """
     Read a stride specification from an ONNX operator.
+
+    :param n_dims: Number of spatial dims, from `spatial_dims`
     """
-    strides = attr_reader.get_attr("strides", "ints", [1] * spatial_dims(attr_reader))
-    if len(strides) not in [1, 2]:
+    strides = attr_reader.get_attr("strides", "ints", None)
+    if strides is None:
+        strides = per_axis_default(1, n_dims)
+    elif len(strides) not in [1, 2]:
         raise ConversionError('"strides" attribute must have 1 or 2 values')
     return strides
 
 
 def read_dilations(
     attr_reader: AttributeReader,
-    default: list[int] | None = None,
+    n_dims: int | None,
+    use_default: bool = True,
 ):
     """
     Read a dilation specification from an ONNX operator.
 
-    :param default:
-        If not None, an operator with no "dilations" attribute gets a dilation
-        of 1 along each spatial axis. Otherwise None is returned for it.
+    :param n_dims: Number of spatial dims, from `spatial_dims`
+    :param use_default:
+        If true, an operator with no "dilations" attribute gets a dilation of 1
+        along each spatial axis. Otherwise None is returned for it.
     """
-    if default is not None:
-        default = [1] * spatial_dims(attr_reader)
-    dilations = attr_reader.get_attr("dilations", "ints", default)
-    if dilations is not None and len(dilations) not in [1, 2]:
+    dilations = attr_reader.get_attr("dilations", "ints", None)
+    if dilations is None:
+        return per_axis_default(1, n_dims) if use_default else None
+    if len(dilations) not in [1, 2]:
         raise ConversionError('"dilations" attribute must have 1 or 2 values')
     return dilations
 
@@ -430,8 +461,8 @@ def op_node_from_onnx_operator(
 
             attrs = sg.AveragePoolAttrsT()
             attrs.kernelSize = kernel_shape
-            read_pads(attr_reader, attrs)
-            attrs.strides = read_strides(attr_reader)
+            read_pads(attr_reader, attrs, len(kernel_shape))
+            attrs.strides = read_strides(attr_reader, len(kernel_shape))
             attrs.countIncludePad = attr_reader.get_bool_attr(
                 "count_include_pad", False
             )
@@ -507,19 +538,21 @@ def op_node_from_onnx_operator(
 
         case "Conv" | "ConvInteger":
             attrs = sg.ConvAttrsT()
-            attrs.dilations = read_dilations(attr_reader, [1, 1])
+            n_dims = spatial_dims(attr_reader, constant_nodes)
+            attrs.dilations = read_dilations(attr_reader, n_dims)
             attrs.groups = attr_reader.get_attr("group", "int", 1)
-            read_pads(attr_reader, attrs)
-            attrs.strides = read_strides(attr_reader)
+            read_pads(attr_reader, attrs, n_dims)
+            attrs.strides = read_strides(attr_reader, n_dims)
 
             # The kernel shape is inferred at runtime from the input weight tensor.
             attr_reader.ignore_attr("kernel_shape")
 
         case "ConvTranspose":
             attrs = sg.ConvTransposeAttrsT()
-            attrs.strides = read_strides(attr_reader)
+            n_dims = spatial_dims(attr_reader, constant_nodes)
+            attrs.strides = read_strides(attr_reader, n_dims)
 
-            attrs.dilations = read_dilations(attr_reader)
+            attrs.dilations = read_dilations(attr_reader, n_dims, use_default=False)
             attrs.groups = attr_reader.get_attr("group", "int", 1)
 
             # The kernel shape is inferred at runtime from the input weight tensor.
@@ -528,7 +561,7 @@ def op_node_from_onnx_operator(
             attrs.outputPadding = attr_reader.get_attr(
                 "output_padding", "ints", default=None
             )
-            read_pads(attr_reader, attrs)
+            read_pads(attr_reader, attrs, n_dims)
 
         case "CumSum":
             attrs = sg.CumSumAttrsT()
@@ -691,8 +724,8 @@ def op_node_from_onnx_operator(
             kernel_shape = attr_reader.require_attr("kernel_shape", "ints")
             check_ints_length("kernel_shape", kernel_shape, [1, 2])
             attrs.kernelSize = kernel_shape
-            read_pads(attr_reader, attrs)
-            attrs.strides = read_strides(attr_reader)
+            read_pads(attr_reader, attrs, len(kernel_shape))
+            attrs.strides = read_strides(attr_reader, len(kernel_shape))
             attrs.ceilMode = attr_reader.get_bool_attr("ceil_mode", False)
 
             attr_reader.check_attr("dilations", "ints", ([1], [1, 1]))
